@@ -522,7 +522,9 @@ def _workload(ctx):
     for j, (shape, api, mode) in enumerate(jobs):
         if (j + 3) % ctx.nshards != ctx.shard:
             continue
-        for n in ((300, 2000) if ctx.quick else (300, 1000, 2000, 5000)):
+        # (also chains short enough for an implementation to think recursion is safe there)
+        for n in ((90, 200, 256, 300, 2000) if ctx.quick else
+                  (80, 90, 128, 200, 255, 256, 257, 300, 512, 1000, 2000, 5000)):
             case = {"kind": "lowlimit", "shape": shape, "n": n, "api": api, "mode": mode}
             ctx.case(case, klass=f"lowlimit/{shape}")
             execute(ctx, case)
